@@ -11,7 +11,8 @@ ASSUME = [
     "existing configurations: unset with the built-in default in force, 1-3 explicit lines in TCP / host:port / unix forms with and "
     "without option words, 'SOCKSPort 0'; requested: none, a configured value, an unconfigured value; through "
     "Tor._default_socks_endpoint / _create_socks_endpoint and through TorConfig.create_socks_endpoint",
-    "a Tor that reports neither SOCKSPort nor a built-in default (old versions) is not explored",
+    "a Tor that reports neither SOCKSPort nor a built-in default (old versions) is not explored; a Tor that reports the default as in "
+    "force but refuses the follow-up lookup of its value is: the configuration must then stay untouched",
     "fallback: outcomes ok / connection error / other error / SOCKS request refused after the TCP connection was made / hang-up during "
     "the SOCKS negotiation, for each of the well-known ports 9050, 9150",
 ]
@@ -53,6 +54,8 @@ def run(pid, tier, seed):
             recs.append(sp.choose(ex, rq, "tor"))
             if rq is not None and ex["lines"]:
                 recs.append(sp.choose(ex, rq, "config"))
+    for rq in (None, "9999", "9050"):
+        recs.append(sp.choose(dict(lines=[], default="9050", lookupfails=True), rq, "tor"))
     for outs in itertools.product(["ok", "connerr", "other", "socksfail", "hangup"], repeat=2):
         recs.append(sp.fallback(outs))
     rep.cov["evaluations"] = len(recs)
